@@ -150,6 +150,51 @@ deriving DecidableEq, Repr, Inhabited
 /-- numerals denote integer values -/
 instance (n : Nat) : OfNat Val n := ⟨.int (Int.ofNat n)⟩
 
+/-! ### `numpy.lib.Arrayterator`
+
+  `wrap_arrayterator` puts the data of every array behind an `Arrayterator`; a hyperslab is applied by
+  `Arrayterator.__getitem__`, which does not index the data: it returns a new `Arrayterator` over the *same* underlying
+  array with other `start` / `stop` / `step` lists.  A second hyperslab on the same variable (`?a[1:2:7],a[1:2:7]`) is
+  composed with the first one by that method — as numpy implements it, which is numpy's `x[s1][s2]` only when the
+  first stride is 1 (`Proofs/Arrayterator.lean`). -/
+
+/-- `start[i]`, `stop[i]`, `step[i]` of an `Arrayterator` (Python ints) -/
+structure Win where
+  start : Int
+  stop : Int
+  step : Int
+deriving DecidableEq, Repr, Inhabited
+
+/-- `Arrayterator.__init__` on an axis of length `n` -/
+def Win.fresh (n : Nat) : Win := ⟨0, n, 1⟩
+
+/-- one axis of `Arrayterator.__getitem__`:
+    `out.start[i] = start + (slice_.start or 0)`; `out.step[i] = step * (slice_.step or 1)`;
+    `out.stop[i] = min(stop, start + (slice_.stop or stop - start))` — the offsets of the new slice are
+    *not* multiplied by the stride already in place -/
+def Win.get (w : Win) (s : PSlice) : Win :=
+  ⟨w.start + orElse s.start 0, min w.stop (w.start + orElse s.stop (w.stop - w.start)), w.step * orElse s.step 1⟩
+
+/-- one entry of `Arrayterator.shape`: `(stop - start - 1) // step + 1` (floor division) -/
+def Win.count (w : Win) : Nat := ((w.stop - w.start - 1).fdiv w.step + 1).toNat
+
+/-- the positions `Arrayterator.__array__` reads on an axis of length `N`: `var[start:stop:step]` (numpy) -/
+def Win.pos (N : Nat) (w : Win) : List Nat := sel N ⟨some w.start, some w.stop, some w.step⟩
+
+/-- an `Arrayterator`: the underlying array (shape, row-major values) and one window per axis -/
+structure View where
+  shape : List Nat
+  data : List Val
+  win : List Win
+deriving DecidableEq, Repr, Inhabited
+
+/-- how the handler's dataset holds the elements of a String array: numpy dtype `U` (the elements are `str`) or
+    dtype `S` (the elements are `bytes`: what files and pydap's own parsers deliver).  `lib.encode` and
+    `responses/dods.py` `_basetype` dispatch on it. -/
+inductive StrRep where
+  | str | bytes
+deriving DecidableEq, Repr, Inhabited
+
 structure Base where
   name : Str
   ty : Str            -- DAP2 type name as printed
@@ -157,6 +202,12 @@ structure Base where
   dims : List Str
   data : List Val     -- row-major
   kind : DataKind := .arr
+  /-- `none`: the data as the handler got it (a fresh `Arrayterator` is put around it);
+      `some v`: the `Arrayterator` an earlier hyperslab of the same request left in `var.data`
+      (`shape` / `data` above are then what it announces / yields) -/
+  view : Option View := none
+  /-- the Python type of the elements when `ty` is `String` (immaterial for numbers) -/
+  srep : StrRep := .str
 deriving DecidableEq, Repr, Inhabited
 
 /-- a member of a top-level Structure: an array, or a Structure of arrays -/
@@ -191,7 +242,27 @@ def prod : List Nat → Nat
   | [] => 1
   | n :: ns => n * prod ns
 
-def Base.WF (b : Base) : Prop := b.data.length = prod b.shape ∧ b.kind = .arr
+/-- a window that lies inside an axis of length `n`, stride ≥ 1 (`start = stop`: the empty axis) -/
+def Win.OK (n : Nat) (w : Win) : Prop := 0 ≤ w.start ∧ w.start ≤ w.stop ∧ w.stop ≤ n ∧ 1 ≤ w.step
+
+instance (n : Nat) (w : Win) : Decidable (w.OK n) := by unfold Win.OK; exact inferInstance
+
+/-- an `Arrayterator` whose windows lie inside its array and whose `shape` is the one the variable shows -/
+def View.OK (v : View) (shape : List Nat) : Prop :=
+  v.data.length = prod v.shape ∧ v.win.length = v.shape.length ∧
+  (∀ p ∈ List.zip v.shape v.win, p.2.OK p.1) ∧ shape = v.win.map Win.count
+
+instance (v : View) (sh : List Nat) : Decidable (v.OK sh) := by unfold View.OK; exact inferInstance
+
+def Base.viewOK (b : Base) : Prop :=
+  match b.view with
+  | none => True
+  | some v => v.OK b.shape
+
+instance (b : Base) : Decidable b.viewOK := by
+  unfold Base.viewOK; cases b.view <;> exact inferInstance
+
+def Base.WF (b : Base) : Prop := b.data.length = prod b.shape ∧ b.kind = .arr ∧ b.viewOK
 
 instance (b : Base) : Decidable b.WF := by unfold Base.WF; exact inferInstance
 
@@ -206,6 +277,25 @@ def Var.WF : Var → Prop
   | .seq _ cols rows => ∀ r ∈ rows, r.length = cols.length
 
 def Dataset.WF (ds : Dataset) : Prop := ∀ v ∈ ds.vars, v.WF
+
+/-! ### what the responses see
+
+  The printers read `shape` and `data` only; the `Arrayterator` bookkeeping matters to a further hyperslab of the same
+  request and to nothing else.  `shown` forgets it. -/
+
+def Base.shown (b : Base) : Base := { b with view := none }
+
+def Member.shown : Member → Member
+  | .base b => .base b.shown
+  | .struct n bs => .struct n (bs.map Base.shown)
+
+def Var.shown : Var → Var
+  | .base b => .base b.shown
+  | .struct n ms => .struct n (ms.map Member.shown)
+  | .grid n a ms => .grid n a.shown (ms.map Base.shown)
+  | .seq n cols rows => .seq n cols rows
+
+def Dataset.shown (ds : Dataset) : Dataset := { ds with vars := ds.vars.map Var.shown }
 
 /-! ### hyperslabs on row-major data -/
 
@@ -226,13 +316,24 @@ def selND : List Nat → List (List Nat) → List Val → List Val
 def padSl (rank : Nat) (sl : List PSlice) : List PSlice :=
   sl ++ List.replicate (rank - sl.length) PSlice.all
 
+/-- `var.data` of an array as `apply_projection` finds it: the `Arrayterator` an earlier item of the projection left
+    there, else a fresh one (`wrap_arrayterator`) around the data -/
+def Base.arrayterator (b : Base) : View :=
+  match b.view with
+  | some v => v
+  | none => ⟨b.shape, b.data, b.shape.map Win.fresh⟩
+
 /-- `check_hyperslab(slice_, target.shape)` then `target.data = target[slice_].data`: more
     indices than dimensions or a slice outside its axis raise `ConstraintExpressionError`;
-    otherwise numpy's selection per axis (missing axes whole, stops clipped) -/
+    otherwise `Arrayterator.__getitem__` per axis (missing axes whole, stops clipped): on a variable named for the
+    first time that is numpy's selection `sel` (`sliceBase_fresh`); `target.shape` is the `Arrayterator`'s `shape`,
+    the values are what it reads from the underlying array -/
 def sliceBase (b : Base) (sl : List PSlice) : Except Exc Base :=
   if sl.length ≤ b.shape.length ∧ (List.zipWith validSl b.shape sl).all id then
-    let idx := List.zipWith sel b.shape (padSl b.shape.length sl)
-    .ok { b with shape := idx.map List.length, data := selND b.shape idx b.data, kind := .arr }
+    let v := b.arrayterator
+    let win := List.zipWith Win.get v.win (padSl b.shape.length sl)
+    .ok { b with shape := win.map Win.count, data := selND v.shape (List.zipWith Win.pos v.shape win) v.data,
+                 kind := .arr, view := some { v with win := win } }
   else .error .ceError
 
 /-! ### `apply_selection` -/
@@ -445,17 +546,11 @@ def collect1Core (src : Dataset) (out : List Var) : ProjItem → Except Exc (Lis
         match findVar out n with
         | none => .ok (out ++ [.struct n [mem]])       -- grids degenerate into structures
         | some (.struct _ ms) => .ok (out.map fun v => if v.name = n then .struct n (addMember ms mem) else v)
-        | some (.grid _ a ms) =>
-          -- the whole grid was collected before: the member is re-set in place (grid object kept)
+        | some (.grid _ _ _) =>
+          -- the whole grid was collected before: the member is already there and is left where it is (since the
+          -- repair: setting it again moved a map behind the others / made the first map the grid's array)
           match mem with
-          | .base b =>
-            if a.name = m then
-              -- the array is the first key: re-set, it goes to the end and the first map takes its place
-              match ms with
-              | [] => .ok out
-              | m0 :: rest => .ok (out.map fun v => if v.name = n then .grid n m0 (rest ++ [b]) else v)
-            else
-            .ok (out.map fun v => if v.name = n then .grid n a (setBase ms b) else v)
+          | .base _ => .ok out
           | .struct _ _ => .error .unspecified
         | some _ => .error .unspecified
   | .path [(n, _), (m, _), (k, _)] =>
@@ -639,14 +734,41 @@ def ndindex : List Nat → List (List Nat)
 
 def idxText (ix : List Nat) : Str := ix.flatMap fun i => ['['] ++ natText i ++ [']']
 
-/-- `encode(value)`: numbers through the formatter, strings between double quotes -/
+/-- `encode(value)` of a value that is a number or a `str` (sequence cells arrive decoded by `iterdata`): numbers
+    through the formatter, strings between double quotes -/
 def fmtVal (fmt : Int → Str) : Val → Str
   | .int i => fmt i
   | .str s => ['"'] ++ s ++ ['"']
 
+def hexDigit (n : Nat) : Char := if n < 10 then Char.ofNat (48 + n) else Char.ofNat (87 + n)
+
+/-- `bytes.decode("ascii", "backslashreplace")`: ASCII bytes are themselves, any other byte is `\xhh` -/
+def decodeAscii (s : Str) : Str :=
+  s.flatMap fun c => if c.toNat < 128 then [c] else ['\\', 'x', hexDigit (c.toNat / 16 % 16), hexDigit (c.toNat % 16)]
+
+/-- `lib.encode(obj)` on an element (or the 0-d data) of an array, by the representation of the array:
+    `bytes` (dtype `S`; a 0-d array is first turned into its item) is decoded and then treated as `str`;
+    `str` (dtype `U`) is put between double quotes; a number goes through `'%.6g'` -/
+def encode (fmt : Int → Str) (rep : StrRep) : Val → Str
+  | .int i => fmt i
+  | .str s =>
+    match rep with
+    | .str => ['"'] ++ s ++ ['"']
+    | .bytes => ['"'] ++ decodeAscii s ++ ['"']
+
+/-- `encode` before the repair 3c6bfd0: a `bytes` element is neither `str` nor an array, `'%.6g' % obj` raises, and the
+    fallback formats the object — the text of its Python literal (spelled out for bytes without quote, backslash or
+    control characters) -/
+def encodePinned (fmt : Int → Str) (rep : StrRep) : Val → Str
+  | .int i => fmt i
+  | .str s =>
+    match rep with
+    | .str => ['"'] ++ s ++ ['"']
+    | .bytes => ['"'] ++ (['b', '\''] ++ s ++ ['\'']) ++ ['"']
+
 /-- the lines `"{indexes} {value}\n"` for `zip(np.ndindex(shape), data.flat)` -/
-def asciiLines (fmt : Int → Str) (shape : List Nat) (data : List Val) : Str :=
-  (List.zip (ndindex shape) data).flatMap fun (ix, v) => idxText ix ++ [' '] ++ fmtVal fmt v ++ ['\n']
+def asciiLines (fmt : Int → Str) (rep : StrRep) (shape : List Nat) (data : List Val) : Str :=
+  (List.zip (ndindex shape) data).flatMap fun (ix, v) => idxText ix ++ [' '] ++ encode fmt rep v ++ ['\n']
 
 /-- `ascii` of a `BaseType` (printname = True), with the id already resolved.  This is where
     `var.data.flat` is used: a wrapped `BaseType` has no `.flat`. -/
@@ -654,12 +776,12 @@ def asciiBase (fmt : Int → Str) (id : Str) (b : Base) : Except Exc Str :=
   match b.shape with
   | [] =>
     match b.data with
-    | [v] => .ok (id ++ ['\n'] ++ fmtVal fmt v)
+    | [v] => .ok (id ++ ['\n'] ++ encode fmt b.srep v)
     | _ => .error .unspecified
   | sh =>
     match b.kind with
     | .wrapped => .error .attributeError
-    | .arr => .ok (id ++ ['\n'] ++ asciiLines fmt sh b.data)
+    | .arr => .ok (id ++ ['\n'] ++ asciiLines fmt b.srep sh b.data)
 
 def joinWith (sep : Str) : List Str → Str
   | [] => []
@@ -758,6 +880,26 @@ def xVal (t : Xdr.Ty) : Val → Xdr.Val
     | .string => .str (strBytes s)
     | _ => .num 0
 
+/-- the bytes `_basetype` yields for one word of a String array, by the Python type of the word:
+    `word.encode("ascii")` for a `str`, `bytes(word)` for a `bytes` (`numpy.bytes_`) -/
+def wordBytes (rep : StrRep) (s : Str) : Xdr.Bytes :=
+  match rep with
+  | .str => strBytes s
+  | .bytes => strBytes s
+
+/-- `_basetype` before the repair 4256c07: a `numpy.bytes_` has no `.encode`, `word.tobytes()` was used — one NUL
+    for the empty string -/
+def wordBytesPinned (rep : StrRep) (s : Str) : Xdr.Bytes :=
+  match rep with
+  | .str => strBytes s
+  | .bytes => if s = [] then [0] else strBytes s
+
+/-- `xVal` with the word dispatch of `_basetype` -/
+def xValR (rep : StrRep) (t : Xdr.Ty) (v : Val) : Xdr.Val :=
+  match v, t with
+  | .str s, .string => .str (wordBytes rep s)
+  | v, t => xVal t v
+
 def tmplOfBase (b : Base) : Xdr.Tmpl := .base (tyOf b.ty) b.shape
 
 /-- `var.data` as `_basetype` sees it: 0-d data (`shape = []`, one value) or an array -/
@@ -765,9 +907,9 @@ def dataOfBase (b : Base) : Xdr.Data :=
   match b.shape with
   | [] =>
     match b.data with
-    | [v] => .scalar (xVal (tyOf b.ty) v)
+    | [v] => .scalar (xValR b.srep (tyOf b.ty) v)
     | _ => .tuple []                          -- not a 0-d array: no such object (`Base.WF` excludes it)
-  | _ => .array (b.data.map (xVal (tyOf b.ty)))
+  | _ => .array (b.data.map (xValR b.srep (tyOf b.ty)))
 
 def tmplOfMember : Member → Xdr.Tmpl
   | .base b => tmplOfBase b
